@@ -154,26 +154,19 @@ func c02RemovesTempBefore(f *File, fd *ast.FuncDecl, opener func(string, *ast.Ca
 
 // flushLocked: fw.file.Write(header.Serialize()); fw.file.Write(compressed); fw.file.Write(fw.header.Serialize())
 func c02FlushOrderCanonical(s *c02Src) (Tri, string) {
-	if s.w == nil {
-		return Unknown, ""
+	// one shared pattern with C01 (extract/storage_shared.go) so that the two facts cannot disagree
+	order, line := StorFlushOrder(s.w)
+	where := c02Writer
+	if line > 0 {
+		where = c02Writer + ":" + itoa(line)
 	}
-	fd := s.w.Func("FileWriter", "flushLocked")
-	if fd == nil {
-		return Unknown, c02Writer
+	switch order {
+	case "blockHeaderDataFileHeader":
+		return Yes, where
+	case "other":
+		return No, where
 	}
-	var args []string
-	for _, c := range s.w.Calls(fd, "fw.file.Write", "fw.file.WriteAt") {
-		if len(c.Args) >= 1 {
-			args = append(args, s.w.Str(c.Args[0]))
-		}
-	}
-	if len(args) == 0 {
-		return Unknown, c02Where(s.w, fd)
-	}
-	if len(args) == 3 && args[0] == "header.Serialize()" && args[1] == "compressed" && args[2] == "fw.header.Serialize()" {
-		return Yes, c02Where(s.w, fd)
-	}
-	return No, c02Where(s.w, fd)
+	return Unknown, where
 }
 
 // Sync()/Close(): fw.file.Sync() executed unconditionally; for Close before fw.file.Close() in the final return
